@@ -106,10 +106,19 @@ class Path:
         self.events: list = []  # ghost event trace (persist calls, ...)
         self.ghost: dict = {}
         self.trace: list = []  # human readable decision labels
+        self.tagged: dict = {}
         self.atom_value: dict = {}  # decided uninterpreted boolean atoms (id -> bool)
         self.atoms_in_pc: set = set()  # atoms mentioned by some assumption
 
     # ---- assumptions -------------------------------------------------------------------
+    def assume_tagged(self, tag, cond):
+        """An assumption obligations may leave out (`drop=`): dropping assumptions only weakens
+        the hypothesis, so it is always sound; used to keep nonlinear axioms out of linear goals."""
+        n = len(self.pc)
+        self.assume(cond)
+        if len(self.pc) > n:
+            self.tagged.setdefault(tag, set()).add(self.pc[-1].get_id())
+
     def assume(self, cond):
         if isinstance(cond, bool):
             if not cond:
@@ -208,11 +217,17 @@ class Path:
         return choice
 
     # ---- obligations -------------------------------------------------------------------
-    def oblige(self, name, goal, kind="post", where="", note=""):
+    def oblige(self, name, goal, kind="post", where="", note="", drop=()):
         if isinstance(goal, bool):
             goal = z3.BoolVal(goal)
+        pc = list(self.pc)
+        if drop:
+            gone = set()
+            for t in drop:
+                gone |= self.tagged.get(t, set())
+            pc = [f for f in pc if f.get_id() not in gone]
         self.explorer.obligations.append(
-            Obligation(name, kind, list(self.pc), goal, self.pid, self.closed, where, note)
+            Obligation(name, kind, pc, goal, self.pid, self.closed, where, note)
         )
 
     def cut(self):
